@@ -162,6 +162,9 @@ def seq_stage(ctx, impl, n, prefix="seq"):
                 break
             subs.append(sub)
         obs = impl.execute_seq(subs, BOUND) if subs else []
+        if None in obs:  # a huge array was requested: drop the rest of the sequence
+            obs = obs[:obs.index(None)]
+            steps = steps[:len(obs)] or steps[:1]
         for st, o in zip(steps, obs):
             st["obs"] = o
             kk = ["halted", "fault", "step-bound", "blocked-in-wait"][o["kind"]]
